@@ -238,7 +238,7 @@ class Interp:
 
     def tick(self):
         self.steps += 1
-        if self.steps > STEP_LIMIT:
+        if self.steps > getattr(self, 'step_limit', STEP_LIMIT):
             raise Unsupported('interpreter step limit exceeded')
 
     def assign(self, target, value, env):
